@@ -147,7 +147,14 @@ def _calculate_impedances(
         indices = delete(indices, limit_indices)
 
     if indices.size > 0:
-        Z[indices] = func(f[indices])
+        try:
+            Z[indices] = func(f[indices])
+        except ZeroDivisionError:
+            # E.g., an exponent that is exactly zero in an expression such as
+            # x**(1/n) that is evaluated using Python floats.
+            raise NotANumberImpedance(
+                "Encountered a division by zero when calculating the impedance"
+            )
 
     if isinf(Z).any():
         raise InfiniteImpedance("Encountered an infinite impedance")
